@@ -253,5 +253,7 @@ func runC02(r *Run) {
 			r.Trace()
 		}
 	}
+	// ---- DoQ: one stream per query; the reply may be complete before (or although) the FIN could be sent
+	doqScenarios(r, "C02", r.N(60, 600))
 	r.Finish("transports {TraditionalDnsConn datagram / stream, PipelineTransport datagram / stream, ReuseConnTransport} x arrival {inside Write (Write returns after the reader consumed it), inside Write followed by EOF, after the caller parked, after parked followed at once by EOF, the same two with EOF returned by the very Read call that returns the last bytes of the reply (stream connections), 2..7 concurrent callers each inside Write, a reply 0.7 s after the query while the reader's deadline update was held back (idle timeout 0.3 s)} x repetitions; every case is non-trivial; each is replayed on the model as the schedule it enforces")
 }
